@@ -8,7 +8,8 @@ THEOREMS = [
     "Rtosc.ArgVal.cmp_refl", "Rtosc.ArgVal.cmp_antisymm", "Rtosc.ArgVal.cmp_trans",
     "Rtosc.ArgVal.cmp_zero_iff_eq", "Rtosc.ArgVal.orders_as_documented",
     "Rtosc.ArgVal.cmp_lexicographic", "Rtosc.ArgVal.compress_blind",
-    "Rtosc.ArgVal.compress_const_run", "Rtosc.ArgVal.compress_arith_run",
+    "Rtosc.ArgVal.compress_const_run", "Rtosc.ArgVal.compress_arith_run", "Rtosc.ArgVal.expandList_arr_congr",
+    "Rtosc.ArgVal.eq_spec",
 ]
 HARNESS = {"src": ["argval.cpp"], "deps": ["common.h", "argval.cpp"]}
 RULE = ("op line = 2 or 3 argument-value lists in the library's flat memory layout; lists of 0..6 values over "
@@ -447,7 +448,7 @@ def count_stats(stats, toks):
 
 
 def generate(rng, tier, stats):
-    n = 6000 if tier == "quick" else 120000
+    n = 30000 if tier == "quick" else 400000
     stats.update({"triples": 0, "layout_pairs": 0, "layout_pair_with_third": 0, "exhaustive_layout_lists": 0,
                   "exhaustive_layout_ops": 0, "infinite_or_nan_stream": 0, "cells": {}, "list_len_hist": {},
                   "compressed_lists": 0})
